@@ -328,6 +328,7 @@ def judge(spec, cells, outcome, mode, translatable):
         for k in accepted_keys(c['title'], c['a1']):
             index.setdefault(k, []).append(c)
     reported = {}
+    unknown = [k for k in sc if k not in index]
     for k, frags in sc.items():
         cs = index.get(k)
         if not cs:
@@ -344,7 +345,8 @@ def judge(spec, cells, outcome, mode, translatable):
         if cls == 'S':
             cnt['listed'] += 1
             if pos not in reported:
-                fail(f"C19.missed.{tag}{_pos_suffix(c, tag)}",
+                # a report that names cells which do not exist has mis-addressed this cell rather than missed it
+                fail('C19.address' if unknown else f"C19.missed.{tag}{_pos_suffix(c, tag)}",
                      f"{desc}: '{c['title']}'!{c['a1']} = {c['text'][:80]!r} ({c['kind']}) is not listed; reported keys {sorted(sc)[:6]!r}",
                      keep=[pos], check='listed')
             else:
@@ -443,8 +445,8 @@ TITLES = ['Data', 'Sh 2', "It's", 'Лист3', 'A1', 'S', 'S1', 'eval(1)', 'X' *
 SAFE_TITLES = ['Data', 'Sh 2', 'Sheet3', 'S', 'S1', 'X' * 31]
 B_COLS = [1, 2, 24, 26, 27, 28, 52, 53, 256, 257, 701, 702, 703, 704, 16383, 16384]
 B_ROWS = [1, 2, 9, 10, 11, 99, 100, 101, 102, 999, 1000, 1001, 1002, 65536, 65537, 1048575, 1048576]
-N_MULTI = {'quick': 120, 'thorough': 2000}
-N_INNOCENT = {'quick': 60, 'thorough': 1500}
+N_MULTI = {'quick': 90, 'thorough': 1200}
+N_INNOCENT = {'quick': 50, 'thorough': 800}
 DATA = [[25, 50, 'value', 1], [25, 51, 'value', 2], [25, 52, 'value', 3]]
 
 
@@ -690,7 +692,7 @@ def helper_sweep(tier):
     if not hasattr(Excel, '_get_suspicious_constructions'):
         return {'name': 'C19.monitor.fragment_rule', 'bound': 'Excel._get_suspicious_constructions is absent', 'rule': '-',
                 'exhaustive': False, 'evaluations': 0, 'distinct_nontrivial': 0, 'failures': [], 'samples': [], 'seconds': 0.0}
-    la, lb = (6, 5) if tier == 'quick' else (7, 7)
+    la, lb = (6, 5) if tier == 'quick' else (7, 6)
     tasks = []
     for alpha, L in ((ALPHA_A, la), (ALPHA_B, lb)):
         firsts = [a + b for a in alpha for b in alpha]
@@ -713,7 +715,7 @@ def helper_sweep(tier):
             'seconds': time.time() - t0}
 
 
-GRID_COLS = [1, 2, 3, 26, 27, 28, 52, 53, 702, 703, 704, 16384]
+GRID_COLS = [1, 2, 3, 26, 27, 28, 52, 53, 702, 703, 704, 705]
 
 
 def _short_pipeline_chunk(arg):
@@ -860,7 +862,7 @@ def sequence_sweep(tier, seed):
     seqs = [''.join(p) + 'T' for p in itertools.product('EDTBG', repeat=L - 1)]
     # sequences that never select a workbook decide nothing
     seqs = [s for s in seqs if 'B' in s or 'G' in s]
-    n_rand = 900 if tier == 'quick' else 20000
+    n_rand = 600 if tier == 'quick' else 10000
     extra = ['BDTEET', 'BDTETET', 'BDTEEW', 'DBTEET', 'BDTXEET', 'GTBT', 'GTDBTET', 'BTDTET', 'CTBTGT', 'DCTBTEET', 'BDWEEW', 'XBDTEET',
              'BDTGTBEET', 'DEBT', 'BDTEDET', 'BDTDEET', 'DBTECT', 'DBTEDTECT']
     for _ in range(n_rand):
@@ -969,6 +971,40 @@ def _tagged_chunk(tagged):
     return out
 
 
+_SUFFIXES = ('.far.later_sheet', '.far', '.later_sheet')
+
+
+def _split(key):
+    for sfx in _SUFFIXES:
+        if key.endswith(sfx):
+            return key[:-len(sfx)], sfx
+    return key, ''
+
+
+def collapse(checks):
+    """one failure per root cause: a key with a position suffix is dropped when the same key fails without it (or with a
+    weaker suffix); three or more text tags failing only under one position suffix are one position-dependent root cause"""
+    weaker = {'.far.later_sheet': ['', '.far', '.later_sheet'], '.far': [''], '.later_sheet': [''], '': []}
+    for _ in range(2):
+        keys = {f['key'] for c in checks for f in c['failures']}
+        for c in checks:
+            c['failures'] = [f for f in c['failures']
+                             if not any(_split(f['key'])[0] + w in keys for w in weaker[_split(f['key'])[1]])]
+        by_sfx = {}
+        for c in checks:
+            for f in c['failures']:
+                base, sfx = _split(f['key'])
+                if sfx and base.startswith('C19.missed.'):
+                    by_sfx.setdefault(sfx, set()).add(base)
+        for c in checks:
+            for f in c['failures']:
+                base, sfx = _split(f['key'])
+                if sfx and base.startswith('C19.missed.') and len(by_sfx.get(sfx, ())) >= 3:
+                    f['key'] = 'C19.missed.any_call' + sfx
+            c['failures'] = dedupe(c['failures'])
+    return checks
+
+
 def run(tier='quick', seed=0):
     _selfcheck()
     checks = []
@@ -976,7 +1012,7 @@ def run(tier='quick', seed=0):
     checks.append(short_pipeline_sweep(tier))
     checks.append(helper_sweep(tier))
     checks.append(sequence_sweep(tier, seed))
-    return {'checks': checks}
+    return {'checks': collapse(checks)}
 
 
 def replay(payload):
